@@ -466,15 +466,9 @@ v("C06", "firewall-wrong-acl", "break", FIREWALL,
         if not permitted:
             self.sys_log.info(f"Frame blocked at DMZ inbound by rule {rule}")''', "R6.1", "DMZ inbound consults the outbound list")
 v("C06", "firewall-skips-destination-check", "break", FIREWALL,
-  '''            if frame.ip.dst_ip_address in self.dmz_port.ip_network:
-                self._process_dmz_inbound_frame(frame, from_network_interface)
-            else:
-                # Otherwise, process the frame as internal inbound
+  '''                # Otherwise, process the frame as internal inbound
                 self._process_internal_inbound_frame(frame, from_network_interface)''',
-  '''            if frame.ip.dst_ip_address in self.dmz_port.ip_network:
-                self._process_dmz_inbound_frame(frame, from_network_interface)
-            else:
-                # Otherwise, process the frame as internal inbound
+  '''                # Otherwise, process the frame as internal inbound
                 self.process_frame(frame=frame, from_network_interface=from_network_interface)''', "R6.1", "external->internal skips the internal inbound list")
 v("C06", "firewall-port-misrouted", "break", FIREWALL,
   '''        elif from_network_interface == self.dmz_port:
@@ -518,6 +512,39 @@ v("C06", "benign-verdict-subscript", "benign", FIREWALL,
             self.process_frame(frame=frame, from_network_interface=from_network_interface)
         else:
             self.sys_log.info(f"Frame blocked at external outbound by rule {rule}")''', None, "early return turned into if/else")
+
+v("C06", "revert-b032f1d-internal-outbound-by-subnet", "break", FIREWALL,
+  '''            if self._leaves_by_dmz_port(frame.ip.dst_ip_address):
+                self._process_dmz_inbound_frame(frame, from_network_interface)
+            else:
+                # If the frame does not leave by the DMZ port''',
+  '''            if frame.ip.dst_ip_address in self.dmz_port.ip_network:
+                self._process_dmz_inbound_frame(frame, from_network_interface)
+            else:
+                # If the frame does not leave by the DMZ port''', "R6.4", "zone chosen by the DMZ port's own subnet only")
+v("C06", "helper-forgets-the-route-table", "break", FIREWALL,
+  '''        route = self.route_table.find_best_route(dst_ip_address)
+        return route is not None and route.next_hop_ip_address in self.dmz_port.ip_network''',
+  '''        return False''', "R6.4", "predicate helper no longer consults the routes")
+v("C06", "helper-selects-the-wrong-port", "break", FIREWALL,
+  '''        if dst_ip_address in self.dmz_port.ip_network:
+            return True
+        if dst_ip_address in self.internal_port.ip_network or dst_ip_address in self.external_port.ip_network:
+            return False''',
+  '''        if dst_ip_address in self.internal_port.ip_network:
+            return True
+        if dst_ip_address in self.dmz_port.ip_network or dst_ip_address in self.external_port.ip_network:
+            return False''', "R6.1", "DMZ predicate answers for the internal subnet")
+v("C06", "benign-helper-inlined-as-local", "benign", FIREWALL,
+  '''            if self._leaves_by_dmz_port(frame.ip.dst_ip_address):
+                self._process_dmz_inbound_frame(frame, from_network_interface)
+            else:
+                # Otherwise, process the frame as internal inbound''',
+  '''            to_dmz = self._leaves_by_dmz_port(frame.ip.dst_ip_address)
+            if to_dmz:
+                self._process_dmz_inbound_frame(frame, from_network_interface)
+            else:
+                # Otherwise, process the frame as internal inbound''', None, "predicate bound to a local first")
 
 # ------------------------------------------------------------------------------------------------ C07
 v("C07", "scan-continues", "break", ROUTER,
